@@ -140,6 +140,8 @@ class SDim(SV):
         if op == "**" and not reflected:
             if isinstance(other, SRat):
                 other = other.value
+            if isinstance(other, SExpr):
+                other = e_numval(other.term)          # a sympy Number exponent
             if is_num(other):
                 return self._arith_result(it, [_scale(x, other) for x in self.vec])
         return NotImplemented
@@ -342,7 +344,30 @@ class SExpr(SV):
             return Intrinsic("expr.as_coeff_Mul", lambda it_, s=self: as_coeff_mul(it_, s))
         if name in ("is_Unit", "units", "value", "shape", "registry", "dimensions", "expr"):
             raise PyRaise("AttributeError")
+        if name == "args":
+            # structural children (assumed sympy ADT): Pow has (base, exponent); a Mul has at
+            # least two factors -- two arbitrary ones stand for all (each is handled by the same
+            # recursive call, i.e. through the function's own contract)
+            if not hasattr(self, "_args"):
+                self._args = (SExpr.fresh(it, "arg0"), SExpr.fresh(it, "arg1"))
+            return self._args
+        if name in ("is_finite", "is_real", "is_Number", "is_Symbol", "is_Mul", "is_Pow"):
+            # three-valued in sympy (True / False / None): any of them
+            if not hasattr(self, "_flags"):
+                self._flags = {}
+            if name not in self._flags:
+                self._flags[name] = it.fresh_bool("sympy_" + name)
+            return self._flags[name]
         raise Unsupported("sympy attribute %s" % name)
+
+    def sv_float(self, it):
+        # float(expr): every sympy Number converts (oo -> inf, nan -> nan); any other expression
+        # either evaluates to a real number or raises TypeError ("Cannot convert ... to float")
+        if it.branch(e_kind(self.term) == K_NUM):
+            return e_numval(self.term)
+        if it.branch(it.fresh_bool("evaluates_to_real")):
+            return it.fresh_real("evalf")
+        it.raise_("TypeError")
 
 
 def as_coeff_mul(it, e):
@@ -796,6 +821,10 @@ class UnytDomain:
         return MISSING
 
     def prim_binop(self, it, op, a, b):
+        if op == "**" and is_num(a) and isinstance(b, SExpr):
+            # python float ** sympy expression: a sympy expression again (a Number when the
+            # exponent is a Number; possibly complex or non-finite)
+            return SExpr.fresh(it, "powered")
         return MISSING
 
     def str_getitem(self, it, s, k):
@@ -1055,6 +1084,8 @@ def _sympy_kind(k):
 
 def _sympy_number(it, obj):
     if isinstance(obj, SExpr):
+        if obj.term.eq(E_ONE):
+            return True
         return e_kind(obj.term) == K_NUM
     if isinstance(obj, SRat):
         return True
@@ -1065,6 +1096,7 @@ def _sympy_number(it, obj):
 
 EXTERNAL_ISINSTANCE = {
     "sympy.Expr": lambda it, o: isinstance(o, (SExpr, SDim, SRat)),
+    "sympy.core.expr.Expr": lambda it, o: isinstance(o, (SExpr, SDim, SRat)),
     "sympy.Basic": lambda it, o: isinstance(o, (SExpr, SDim, SRat)),
     "sympy.Symbol": _sympy_kind(K_SYM),
     "sympy.Pow": _sympy_kind(K_POW),
@@ -1522,7 +1554,22 @@ assumed("numpy2", "module-level NumPy version switches are resolved for NumPy >=
         "(_COPY_IF_NEEDED is None; the `if NUMPY_VERSION >= 2` arms are the ones indexed)")
 assumed("no-dask", "sys.modules holds none of the optional array libraries (dask): the dask "
         "short-circuit of __array_ufunc__ is outside the model")
+def _parse_expr(it, text, **kw):
+    """sympy's parser (abstract): for any text it raises some exception, or returns a sympy
+    expression, or returns a python object that is no sympy Expr (tuples, numbers, dicts...)"""
+    c = it.ctx.choose(3, "parse_expr_outcome")
+    if c == 0:
+        it.raise_("SyntaxError" if it.branch(it.fresh_bool("syntax_error")) else "ValueError")
+    if c == 1:
+        return SExpr.fresh(it, "parsed")
+    return Opaque("parsed_non_expr")
+
+
+assumed("sympy-parser", "sympy.parsing.sympy_parser.parse_expr is abstract: it may raise any exception, "
+        "return an arbitrary sympy expression, or return an arbitrary non-Expr object")
+
 EXTERNAL_CALLS = {
+    "sympy.parsing.sympy_parser.parse_expr": _parse_expr,
     "packaging.version.Version": lambda it, *a: Opaque("version"),
     "collections.OrderedDict": _ordered_dict,
     "sympy.sympify": _sympify,
